@@ -266,6 +266,36 @@ def ctx_params():
     return out
 
 
+def log_params():
+    out = dict(flush='FlushUnknown', fb='false', ca='false')
+    fl = _find(_src('utils.py'), 'LoggerFileProxy', 'flush')
+    if fl is not None and len(fl.body) == 1 and isinstance(fl.body[0], ast.If) and ast.unparse(fl.body[0].test) == 'self.bufs':
+        body = fl.body[0].body
+        calls = [n for n in body if isinstance(n, ast.Expr) and 'self.logger_func' in ast.unparse(n)]
+        clears = [n for n in body if isinstance(n, ast.Assign) and ast.unparse(n.targets[0]) == 'self.bufs' and ast.unparse(n.value) == '[]']
+        clears += [n for n in body if isinstance(n, ast.Expr) and ast.unparse(n) == 'self.bufs.clear()']
+        if len(calls) == 1 and len(body) == 1:
+            out['flush'] = 'FlushKeeps'
+        elif len(calls) == 1 and len(clears) == 1 and len(body) == 2 and body.index(calls[0]) < body.index(clears[0]):
+            out['flush'] = 'FlushClears'
+    pr = _src('runners/process.py')
+    sub = _find(pr, 'ProcessRunner', '_subprocess_func')
+    if sub is not None:
+        tries = [n for n in sub.body if isinstance(n, ast.Try)]
+        if len(tries) == 1 and tries[0].finalbody:
+            fin = [ast.unparse(n) for n in tries[0].finalbody]
+            if 'sys.stdout.flush()' in fin and 'sys.stderr.flush()' in fin:
+                out['fb'] = 'true'
+    w = _find(pr, 'ProcessRunner', 'wait')
+    if w is not None:
+        stm = [ast.unparse(n) for n in w.body]
+        idx_wait = [i for i, x in enumerate(stm) if 'self.executor.wait(' in x]
+        idx_cons = [i for i, x in enumerate(stm) if x == 'self._consume_log_queue()']
+        if len(idx_wait) == 1 and any(i > idx_wait[0] for i in idx_cons) and any(isinstance(n, ast.For) for n in w.body[max(idx_cons):]):
+            out['ca'] = 'true'
+    return out
+
+
 def render():
     sp = sched_params()
     lines = [
@@ -277,6 +307,10 @@ def render():
     vp = values_params()
     lines += ['Definition deser_mode_src : deser_mode := %(deser)s.' % vp,
               'Definition setstate_mode_src : setstate_mode := %(setstate)s.' % vp]
+    lp = log_params()
+    lines += ['Definition flush_mode_src : flush_mode := %(flush)s.' % lp,
+              'Definition flush_before_result_src : bool := %(fb)s.' % lp,
+              'Definition consume_after_results_src : bool := %(ca)s.' % lp]
     xp = ctx_params()
     lines += ['Definition ctx_sites_src : ctx_sites := {| cf_serial := %(serial)s; cf_fork := %(fork)s; cf_spawn := %(spawn)s |}.' % xp]
     ep = exec_params()
